@@ -13,7 +13,7 @@ ENGINES = [
          kind_free_text="MIR -> SMT symbolic execution of loop-free integer fragments (a closure body, a block range of a larger function): path enumeration over the nightly compiler's MIR of the real code, "
                         "u32 inputs as z3 bit-vectors, core integer / Option methods by their documented semantics, formatting calls recorded as events; each path's panic-freedom and post-condition is one z3 query over ALL input values; "
                         "satisfying assignments are replayed through the public API of the real crate (dev and release) before a violation is reported"),
-    dict(name="mirproto", path="lib/mirproto_engine.py", serves_properties=["C05", "C06", "C08", "C15"],
+    dict(name="mirproto", path="lib/mirproto_engine.py", serves_properties=["C05", "C06", "C08", "C13", "C15"],
          kind_free_text="MIR -> SMT bounded model checking of lock-free protocols: the nightly compiler's MIR of the real protocol functions is regenerated on every run; "
                         "thread-local code is executed concretely into per-thread automata of visible steps (atomics with their orderings, fences, cell accesses, waker callbacks, storage release); "
                         "all interleavings of the endpoint programs up to the step bound, with vector-clock happens-before, are decided by z3 (bit-blast + SAT); counterexamples are schedules re-checked against the current source"),
@@ -40,6 +40,15 @@ CLAIMED = {
         text="clamp_p_value decided for EVERY f64 (NaN / infinities -> 1.0, result always in [1e-15, 1]); exact_tail_p_values on 2 (3 thorough) arbitrary finite non-negative counts: every reported p in the reportable range; scaled_average_ranks on 3 ARBITRARY f64 equals the brute-force definition under the documented total order and depends only on the order of the data (monotone invariance); "
              "pettitt_rank_location on 2-4 doubled ranks equals integer brute force (location, prefix rank sum - also for flat series -, statistic); mann_whitney_tie_term on 3 ranks; median of 3 arbitrary / 2 finite f64; exact_mw_feasible for n1,n2 <= 40 (thorough); mirsym (MIR -> z3, every usize): the change-point selection scorer asks the exactness oracle about exactly the two sides of each split (size, n - size), i.e. the exact tail is used for the same splits as in MannWhitneyU. Partial claim: the rank layer and the reporting range only. Bounded, not a proof.",
         note="Transcendental / iterated float code (normal and Student-t tails, exact rank-sum DP) and larger samples are outside the claim. Trusts Kani/CBMC/CaDiCaL.",
+    ),
+    "C13": dict(
+        engine="mirproto",
+        technique="SMT-based bounded model checking (z3) of all interleavings of the real RegionCached write / regional-initialisation protocol (with_in_region, set_global, invalidate_regions, try_with_value, initialize, clear - interpreted from the compiler's MIR) with arc-swap cells as sequentially consistent single cells",
+        design_ref="DESIGN.md §5 C13",
+        text="Partial claim: RegionCached (not region_local), threads in fixed regions. For every scenario (1-2 regions, initially uninitialised or holding generation 0; 2-3 threads with <= 2 operations each from set_global and a read in a region) z3 decides over ALL interleavings of the visible steps of the real functions, up to the step bound: "
+             "once every write and read has returned, every region is either invalid or holds the latest generation written (no persistently stale region, no region stuck in 'Initializing'); a thread that writes and then reads in its region observes its own write when nobody else writes; successive reads of one thread in one region never go back in the single writer's order; no panic arm. "
+             "Found the genuine lost-invalidation defect (a write that lands between an initialiser's marker and its store), reproduced on the real crate through the public API and repaired (fix: 90c00c3, see known_findings.json). Bounded, not a proof.",
+        note="arc-swap / rsevents / OnceLock are contracts (single SC cells, wait may return early); linked, many_cpus and the region lookup are outside; generations <= 5; runs longer than the step bound are outside. Trusts rustc's MIR, the extraction tables (fail closed), z3.",
     ),
     "C15": dict(
         engine="mirproto",
@@ -143,12 +152,11 @@ NOT_APPLICABLE = {
     "C04": "the panic half needs unwinding (absent in Kani; catch_unwind even ICEs it) and the re-entrancy half needs the wrapper-pool shapes that do not fit (P22)",
     "C10": "OS scheduler affinity via sched_setaffinity/sched_getaffinity FFI and per-thread pin state in a thread_local with a destructor (P4): neither is encodable; the encodable mask construction is decided under C11",
     "C12": "every entry point goes through thread_local registries with destructors and thread::current() (unsupported pthread_key_create, P4); first-access races need OS threads",
-    "C13": "region_cached/region_local sit on linked (P4), arc-swap thread-local debt lists, rsevents blocking waits and many_cpus; the protocol publishes heap values through ArcSwap, which the mirproto model cannot represent",
     "C14": "OS threads, blocking event-listener waits, platform FFI, liveness; Kani ICEs on thread::spawn (P3)",
     "C17": "real OS thread pool, mpsc/oneshot channels and panics crossing threads; no unwinding and no threads in Kani",
 }
 
 NOTES = ("Technique family: solver-based checking of the real code (Kani/CBMC over compiled code; MIR->SMT for the lock-free protocols and for loop-free integer kernels). "
-         "Repairs of genuine defects in /repo: fix: commits 75fe83e (C06), 17418ce (C11), d0196c3 (C09), recorded in known_findings.json; one recorded known finding (C08, manual-reset event). "
+         "Repairs of genuine defects in /repo: fix: commits 75fe83e (C06), 17418ce (C11), d0196c3 (C09), 90c00c3 (C13), recorded in known_findings.json; one recorded known finding (C08, manual-reset event). "
          "Exit codes of ./check: 0 = property held on everything explored, 1 = VIOLATION (replayed against the real build), "
          "2 = no verdict (timeout, out of memory, unsupported construct, non-reproducing counterexample) - never reported as a pass.")
